@@ -1,0 +1,12 @@
+"""Verification hooks: inactive unless the environment variable SYMFC_VERIF=1 is set."""
+
+import os
+
+
+def _verif_override(name: str, value):
+    """Return int(os.environ["SYMFC_VERIF_" + name]) when hooks are on and it is set, else value."""
+    if os.environ.get("SYMFC_VERIF") == "1":
+        v = os.environ.get("SYMFC_VERIF_" + name)
+        if v:
+            return int(v)
+    return value
